@@ -196,13 +196,14 @@ CLAIMED = {
                 "(C13_remove_all_computes_spec); RootRef::remove_all = parent lookup (either backend) ; rm_all (C13_root_remove_all_exact); for "
                 "ANY tree rm_all adds and modifies nothing (C13_spec_only_removes), every entry that disappears is the named one or lies beneath "
                 "the directory under that name, reached through real directories only -- never through a link -- (C13_spec_removes_only_beneath), "
-                "and a reported success means the named entry is gone (C13_spec_success_means_gone). "
+                "a reported success means the named entry is gone (C13_spec_success_means_gone), and -- names being unique within a directory -- "
+                "everything beneath it is gone too: the entries afterwards are EXACTLY the entries before minus the named one and what lies "
+                "beneath it (C13_spec_removes_everything_beneath, C13_spec_exact). "
                 "Runtime: whole-sandbox snapshots on deep/wide subtrees with links to siblings/parents/outside x path spellings (difference must "
                 "be exactly the named entry and what is below it), 2-4 racing callers per path, and links swapped in at every boundary of a running remove_all.",
         "note": COMMON_NOTE + "Partial: rm_all takes the fuel of the program (recursion depth, scan rounds, entries per directory); that "
                 "enough fuel exists for every finite tree is not proved (the library itself has no such bound: its loops end because the "
-                "directory empties), so 'everything below is removed' is stated as 'success => the entry is gone' and the rest is judged by "
-                "the snapshot oracle; getdents returns the whole listing at once in the model (the kernel's batching is covered by the "
+                "directory empties): the exact statement is about the runs that report success; getdents returns the whole listing at once in the model (the kernel's batching is covered by the "
                 "all-answers theorem C13_stays_beneath); convergence of concurrent callers is decided by the race / schedule runs. The dynamic "
                 "kernel model is tied by T2d (every answer of recorded remove_all executions incl. listings and F_GETFL, and the final tree).",
         "technique": "Coq proof (refusals, discipline, balance: all responses; refinement of remove_all on a dynamic kernel model to a pure function of the tree with its frame properties) + snapshot differential + racing callers + attacker schedules + trace replay incl. T2d",
